@@ -19,9 +19,9 @@ RULE = ("every network.url node (in-range) of every result: its value is split b
         "judged URL or Windows path node.")
 ASSUMPTIONS = ["ntpath.normpath, socket.inet_aton are trusted", "IP-obfuscation label is read relative to the percent-decoded host text"]
 EXPECTED_WALL = {"quick": 50, "thorough": 400}
-REQUIRED = {"c12_urls": 3000, "c12_url_children": 10000, "c12_urls_value_shorter_than_original": 300, "c12_paths_with_dot_segments": 200,
-            "c12_obfuscated_ip_hosts": 50, "c12_windows_paths": 2000, "c12_windows_paths_normalised": 200,
-            "c12_windows_host_children": 200, "c12_windows_file_children": 500, "direct_calls": 2000}
+REQUIRED = {"c12_urls": 375, "c12_url_children": 1250, "c12_urls_value_shorter_than_original": 37, "c12_paths_with_dot_segments": 25,
+            "c12_obfuscated_ip_hosts": 6, "c12_windows_paths": 250, "c12_windows_paths_normalised": 25,
+            "c12_windows_host_children": 25, "c12_windows_file_children": 62, "direct_calls": 250}
 GENS = ("url", "ioc", "seedmut", "ctxdec", "repeat", "soup")
 
 
